@@ -187,6 +187,7 @@ func (c *ctx) checkReset(info *spec.EMsg, obj *TV, st *GV, path string, fails *[
 	}
 	// groups
 	viaAll := map[string]bool{}   // via head -> all children null/unknown
+	viaCustom := map[string]bool{} // via head -> a custom-type field is promoted from it
 	groupAll := map[string]bool{} // oneof group -> all branches null/unknown
 	for _, f := range info.Fields {
 		a, ok := obj.Attr(f.Attr)
@@ -197,6 +198,11 @@ func (c *ctx) checkReset(info *spec.EMsg, obj *TV, st *GV, path string, fails *[
 			}
 			if !nu {
 				viaAll[f.Via[0]] = false
+			}
+			if f.Shape == "custom" {
+				// the user's CopyFrom function is handed a pointer to the field, so the embedded message it lives in
+				// has to exist whatever the attribute holds; its other fields are checked below
+				viaCustom[f.Via[0]] = true
 			}
 		}
 		if f.Oneof != "" {
@@ -210,7 +216,7 @@ func (c *ctx) checkReset(info *spec.EMsg, obj *TV, st *GV, path string, fails *[
 		}
 	}
 	for head, all := range viaAll {
-		if all {
+		if all && !viaCustom[head] {
 			if p := st.Field(head); p != nil && p.K == "p" && !p.Nil {
 				*fails = append(*fails, path+"."+head+": embedded pointer not reset although all its attributes are null or unknown")
 				*sigs = append(*sigs, "embeddedptr-parent")
